@@ -228,46 +228,76 @@ def r4_provenance(ctx) -> None:
           continue
         n_sites += 1
         node = g.node_of(c)
-        o = prov.origins(pexpr, node)
-        calls = [(dotted(v.func) or '').split('.')[-1] for k, v in o if k == 'call']
-        attrs = [dotted(v) or '' for k, v in o if k == 'attr']
-        ok = any(x in DECODERS for x in calls) or any(a.endswith(('.parameters',)) and not a.startswith('self.') for a in attrs) \
-            or any('_grid_values' in a for a in attrs)
-        if ok:
-          ctx.ok('R4', inst, c, f'parameters come from {sorted(set(x for x in calls if x in DECODERS)) or "config-enumerated values"}')
-          continue
-        # a ParameterDict (or a list of them) filled by item stores in this function: check the stores
-        pd_vars = {t.id for x in ast.walk(fi.node) if isinstance(x, ast.Assign) and isinstance(x.value, ast.Call)
-                   and (dotted(x.value.func) or '').endswith('ParameterDict') for t in x.targets if isinstance(t, ast.Name)}
-        stores = [x for x in ast.walk(fi.node) if isinstance(x, ast.Assign) and any(
-            isinstance(t, ast.Subscript) and isinstance(t.value, ast.Name) and t.value.id in pd_vars for t in x.targets)]
-        if stores and not any(k == 'const' and isinstance(v, str) for k, v in o):
-          all_ok = True
-          for x in stores:
-            so = prov.origins(x.value, g.node_of(x))
-            scalls = [(dotted(v.func) or '').split('.')[-1] for k, v in so if k == 'call']
-            sattrs = [dotted(v) or '' for k, v in so if k == 'attr']
-            if not (any(n in DECODERS for n in scalls) or any('_grid_values' in a or 'feasible_values' in a for a in sattrs)):
-              all_ok = False
-          ctx.check(all_ok, 'R4', inst, c, 'every stored value is enumerated from the config (grid / feasible values) or decoded',
-                    'a value stored into the suggested ParameterDict is neither enumerated from the config nor decoded by a clipping decoder',
-                    construct=f'{fi.name}:stores', func=fi.qualname)
-          continue
-        # literal provenance: allowed only with a constructor guard making the literal set the feasible set
-        consts = sorted({repr(v) for k, v in o if k == 'const' and isinstance(v, str)})
-        if not consts:
-          for x in stores:
-            consts += [repr(v) for k, v in prov.origins(x.value, g.node_of(x)) if k == 'const' and isinstance(v, str)]
-          consts = sorted(set(consts))
-        guard = _literal_guard(ctx, fi, consts)
-        ctx.check(guard, 'R4', inst, c, 'literals proven equal to the feasible set by a constructor guard',
-                  f'the suggested values are the literals {consts} for every parameter, but the constructor only checks '
-                  'external_type == BOOLEAN, not that both values are feasible: a boolean parameter restricted to one value '
-                  '(add_bool_param(feasible_values=[True])) gets an out-of-domain suggestion instead of a refusal'
-                  if consts else 'the suggested parameters do not derive from a clipping decoder or from config-enumerated values',
-                  construct=f'{fi.name}:literal-params', func=fi.qualname)
+        verdict, why = _classify_params(ctx, fi, g, rd, prov, pexpr, node, 0)
+        if verdict == 'ok':
+          ctx.ok('R4', inst, c, why)
+        elif verdict == 'literal':
+          consts = why
+          guard = _literal_guard(ctx, fi, consts)
+          ctx.check(guard, 'R4', inst, c, 'literals proven equal to the feasible set by a constructor guard',
+                    f'the suggested values are the literals {consts} for every parameter, but the constructor only checks '
+                    'external_type == BOOLEAN, not that both values are feasible: a boolean parameter restricted to one value '
+                    '(add_bool_param(feasible_values=[True])) gets an out-of-domain suggestion instead of a refusal',
+                    construct=f'{fi.name}:literal-params', func=fi.qualname)
+        else:
+          ctx.bad('R4', inst, c, why, construct=f'{fi.name}:{"stores" if "stored" in why else "literal-params"}', func=fi.qualname)
   if n_sites < 10:
     raise AnalysisError(f'only {n_sites} TrialSuggestion constructions found')
+
+
+def _classify_params(ctx, fi, g, rd, prov, pexpr, node, depth):
+  """('ok', why) | ('literal', consts) | ('bad', why) for the expression that becomes a suggestion's parameters."""
+  o = prov.origins(pexpr, node)
+  calls = [v for k, v in o if k == 'call']
+  cnames = [(dotted(v.func) or '').split('.')[-1] for v in calls]
+  attrs = [dotted(v) or '' for k, v in o if k == 'attr']
+  if any(x in DECODERS for x in cnames) or any(a.endswith(('.parameters',)) and not a.startswith('self.') for a in attrs) \
+      or any('_grid_values' in a for a in attrs):
+    return 'ok', f'parameters come from {sorted(set(x for x in cnames if x in DECODERS)) or "config-enumerated values"}'
+  # a private helper of the same class / module builds the parameters: judge what it returns
+  if depth < 2:
+    for cv in calls:
+      callee = None
+      d = dotted(cv.func) or ''
+      if d.startswith('self.') and d.count('.') == 1 and fi.cls is not None:
+        callee = ctx.index.find_method(fi.cls, d[5:])
+      elif isinstance(cv.func, ast.Name) and cv.func.id in fi.module.functions:
+        callee = fi.module.functions[cv.func.id]
+      if callee is None or callee is fi:
+        continue
+      g2 = cfgmod.CFG(callee.node)
+      rd2 = flow.ReachingDefs(g2)
+      prov2 = flow.Provenance(g2, rd2, on_call=lambda c_: 'stop', on_attr=lambda a: 'through')
+      rets = [r for r in ast.walk(callee.node) if isinstance(r, ast.Return) and r.value is not None]
+      if not rets:
+        continue
+      verdicts = [_classify_params(ctx, callee, g2, rd2, prov2, r.value, g2.node_of(r), depth + 1) for r in rets]
+      if all(v == 'ok' for v, _ in verdicts):
+        return 'ok', f'built by {callee.name}(): ' + verdicts[0][1]
+      badv = next((vw for vw in verdicts if vw[0] != 'ok'), None)
+      if badv is not None and badv[0] == 'bad':
+        return badv
+  # a ParameterDict (or a list of them) filled by item stores in this function: check the stores
+  pd_vars = {t.id for x in ast.walk(fi.node) if isinstance(x, ast.Assign) and isinstance(x.value, ast.Call)
+             and (dotted(x.value.func) or '').endswith('ParameterDict') for t in x.targets if isinstance(t, ast.Name)}
+  stores = [x for x in ast.walk(fi.node) if isinstance(x, ast.Assign) and any(
+      isinstance(t, ast.Subscript) and isinstance(t.value, ast.Name) and t.value.id in pd_vars for t in x.targets)]
+  if stores and not any(k == 'const' and isinstance(v, str) for k, v in o):
+    for x in stores:
+      so = prov.origins(x.value, g.node_of(x))
+      scalls = [(dotted(v.func) or '').split('.')[-1] for k, v in so if k == 'call']
+      sattrs = [dotted(v) or '' for k, v in so if k == 'attr']
+      if not (any(n in DECODERS for n in scalls) or any('_grid_values' in a or 'feasible_values' in a for a in sattrs)):
+        return 'bad', 'a value stored into the suggested ParameterDict is neither enumerated from the config nor decoded by a clipping decoder'
+    return 'ok', 'every stored value is enumerated from the config (grid / feasible values) or decoded'
+  consts = sorted({repr(v) for k, v in o if k == 'const' and isinstance(v, str)})
+  if not consts:
+    for x in stores:
+      consts += [repr(v) for k, v in prov.origins(x.value, g.node_of(x)) if k == 'const' and isinstance(v, str)]
+    consts = sorted(set(consts))
+  if consts:
+    return 'literal', consts
+  return 'bad', 'the suggested parameters do not derive from a clipping decoder or from config-enumerated values'
 
 
 def _check_stores(ctx, fi, g, rd, prov, c, f) -> None:
